@@ -257,8 +257,17 @@ class DataArray:
             return False
         if a.n is not None or b.n is not None:
             raise Unsupported("equals on variable-length arrays")
+        ca, cb = getattr(self, "_coords", {}) or {}, getattr(other, "_coords", {}) or {}
+        if set(ca) != set(cb):
+            return False
+        extra = []
+        for c in ca:
+            va, vb = ca[c], cb[c]
+            if tuple(va.dims) != tuple(vb.dims) or va.data.shape_cap != vb.data.shape_cap:
+                return False
+            extra += [symnp._eq(x, y) for x, y in zip(va.data.flat_list(), vb.data.flat_list())]
         return and_(*[symnp._eq(x, y) if not (isinstance(x, float) and x != x and isinstance(y, float) and y != y) else True
-                      for x, y in zip(a.flat_list(), b.flat_list())])
+                      for x, y in zip(a.flat_list(), b.flat_list())], *extra)
 
     identical = equals
 
@@ -379,7 +388,11 @@ class Dataset:
         if isinstance(k, dict):
             return self.isel(k)
         try:
-            return DataArray(self._vars[k], name=k)
+            da = DataArray(self._vars[k], name=k)
+            # coordinates of the dataset whose dimensions the variable has travel with it (and take part in DataArray.equals)
+            dims = set(self._vars[k].dims)
+            da._coords = {c: self._vars[c] for c in self._coord_names if c != k and c in self._vars and set(self._vars[c].dims) <= dims}
+            return da
         except KeyError:
             if isinstance(k, str) and k in self._dim_caps():
                 # a dimension without a coordinate variable: xarray hands out its index 0..size-1
@@ -545,6 +558,15 @@ class Dataset:
             names = [names]
         out = self._shallow()
         out._coord_names |= set(names)
+        return out
+
+    def assign_coords(self, coords=None, **kw):
+        m = dict(coords or {})
+        m.update(kw)
+        out = self._shallow()
+        for k, v in m.items():
+            out[k] = v
+            out._coord_names.add(k)
         return out
 
     def reset_coords(self, names=None, drop=False):
